@@ -142,5 +142,40 @@ def rotateToFirstOn (pts : List (Point R)) : List (Point R) :=
   | none => pts
   | some i => pts.drop i ++ pts.take i
 
+/-- Walking along a contour: is every segment one the segment protocol can express?  `pending` = there
+are off-curve points waiting for their on-curve point.  A `move` may not occur, a `line` point may not
+be preceded by off-curve points, and no off-curve points may be left over at the end. -/
+def segsOK : Bool → List (Point R) → Bool
+  | pending, [] => !pending
+  | pending, p :: ps =>
+    match p.seg with
+    | none => segsOK true ps
+    | some .line => !pending && segsOK false ps
+    | some .move => false
+    | some _ => segsOK false ps
+
+/-- The contours the segment protocol carries faithfully:
+* a single `move` point;
+* an open contour (first point `move`, at least two points): no further `move`, no `line` directly after
+  an off-curve point, no trailing off-curve points;
+* a closed contour with an on-curve point (at least two points): the same, read cyclically;
+* a closed contour of off-curve points only (at least two) whose first and last coordinates differ.
+(An empty contour vanishes, a lone non-`move` point comes back as `move`, an off-curve-only contour
+whose first and last points coincide loses its last point: fontTools behaviour, outside this predicate.) -/
+def SegFaithful [DecidableEq R] (pts : List (Point R)) : Prop :=
+  match pts with
+  | [] => False
+  | [p] => p.seg = some .move
+  | p :: q :: r =>
+    if p.seg = some .move then segsOK false (q :: r) = true
+    else
+      match firstOn (p :: q :: r) with
+      | none => ∀ l, (q :: r).getLast? = some l → p.pt ≠ l.pt
+      | some i => segsOK false ((p :: q :: r).drop (i + 1) ++ (p :: q :: r).take (i + 1)) = true
+
+/-- point pen → segment pen → point pen, for the points of one contour -/
+def segRoundTrip [DecidableEq R] (pts : List (Point R)) : Option (List (Ev R)) :=
+  (segContour pts).bind (stpRun none)
+
 end Pen
 end DefconModel
